@@ -695,14 +695,18 @@ pub fn register(r: &mut Registry) {
         }
         let y = Array1::from_shape_fn(n, |i| x[[i, 0]] - 0.5 * x[[i, 7]] + 0.25 * x[[i, 63]] + (i % 5) as f64 * 0.125);
         let mut f = Fingerprint::new();
-        match linfa_elasticnet::ElasticNet::<f64>::params().penalty(0.02).l1_ratio(0.5).tolerance(1e-9).max_iterations(6).fit(&Dataset::new(x, y)) {
+        // two tolerances: the cheap per-coordinate criterion starts to hold sweeps before the
+        // duality gap certifies convergence, so how often the gap is looked at decides n_steps
+        for tol in [1e-2, 1e-4] {
+        match linfa_elasticnet::ElasticNet::<f64>::params().penalty(0.02).l1_ratio(0.5).tolerance(tol).max_iterations(10).fit(&Dataset::new(x.clone(), y.clone())) {
             Ok(m) => {
-                f.arr("hyperplane", m.hyperplane());
-                f.one("intercept", m.intercept());
-                f.one("duality_gap", m.duality_gap());
-                f.one("n_steps", m.n_steps());
+                f.arr(&format!("tol{tol:e}_hyperplane"), m.hyperplane());
+                f.one(&format!("tol{tol:e}_intercept"), m.intercept());
+                f.one(&format!("tol{tol:e}_duality_gap"), m.duality_gap());
+                f.one(&format!("tol{tol:e}_n_steps"), m.n_steps());
             }
             Err(e) => f.err("fit", &e),
+        }
         }
         f
     });
